@@ -94,6 +94,29 @@ def prefix_program(rnd):
     return body
 
 
+def gap_comments(text, rnd, p=0.3):
+    """a line comment in gaps between tokens of code lines: at blanks, and directly before closing brackets (so also after
+    the operand of a spelled-out prefix form nested in another form)"""
+    out = []
+    n = 0
+    for line in text.split("\n"):
+        code, sep, rest = line.partition(";")
+        if '"' in code or line.startswith("#!"):              # (string literals and the hash-bang line are left alone)
+            out.append(line)
+            continue
+        buf = []
+        for ch in code:
+            if ch in ")]" and rnd.random() < p:
+                n += 1
+                buf.append(" ; g%d\n" % n)
+            buf.append(ch)
+            if ch == " " and rnd.random() < p:
+                n += 1
+                buf.append("; g%d\n " % n)
+        out.append("".join(buf) + sep + rest)
+    return "\n".join(out)
+
+
 def string_program(rnd):
     """string literals whose CONTENT has white space a line-oriented clean-up would touch: raw strings with lines ending
     in blanks or tabs, blank-only lines, leading indentation, a trailing blank before the closing quotes; ordinary strings
@@ -140,6 +163,9 @@ def _run(V, work, tier):
         texts = rnd.sample(texts, min(len(texts), 2500))
     rejected = rnd.sample(rejected, min(len(rejected), 3000 if thorough else 600))
     progs_ = [commented_program(rnd) for _ in range(1500 if thorough else 250)] + [prefix_program(rnd) for _ in range(2000 if thorough else 400)] + [string_program(rnd) for _ in range(600 if thorough else 150)]
+    # the prefix programs again with a comment in the gaps BETWEEN THE TOKENS of every form (after a head, after an operand,
+    # directly before a closing bracket): also inside spelled-out prefix forms that sit in other forms
+    progs_ += [gap_comments(prefix_program(rnd), rnd, rnd.choice([0.15, 0.3, 0.5])) for _ in range(2000 if thorough else 400)]
     files = []
     for f in ktrace.repo_lisp_files():
         try:
@@ -162,7 +188,15 @@ def _run(V, work, tier):
                 V.add(None, "the formatter (%s) rejects an input the reader accepts" % mode, {"text": t[:2000]})
                 continue
             if not f["idem"]:
-                V.add(None, "formatting is not idempotent (%s)" % mode, {"text": t[:2000], "out": f["out"][:2000]})
+                # known finding, narrowly: the input spells out a prefix form ((lisp:expr ..), (lisp:function ..), (quote ..)) with
+                # a comment inside it, the first pass re-sugars or re-lays it, and the second pass differs ONLY by line breaks
+                # directly after opening brackets
+                import re as _re
+                squeeze = lambda x: _re.sub(r"([(\[])\s+", r"\1", x)
+                key = None
+                if f.get("out2") and squeeze(f["out2"]) == squeeze(f["out"]) and _re.search(r"[(\[](lisp:expr|lisp:function|quote)\b[^()\[\]]*(\([^()]*)?;", t):
+                    key = "reformat-after-resugar-moves-first-element"
+                V.add(key, "formatting is not idempotent (%s)" % mode, {"text": t[:2000], "out": f["out"][:2000], "out2": (f.get("out2") or "")[:2000]})
             if not f["reads"]["ok"]:
                 V.add(None, "formatter output (%s) is rejected by the strict reader" % mode, {"text": t[:2000], "out": f["out"][:2000]})
                 continue
